@@ -136,10 +136,16 @@ CHECKS = [
         "Namespace.track by assumed contract, filter commands excluded by precondition. Not under contract: tag-namespace "
         "typedef/struct handling, _pair_function/_is_constructor/_pair_static_method, to_underscores, the exactly-once "
         "statement over a whole scan (a whole-history property), get-type folding.", "DESIGN.md section 4 C04"),
-    chk("C02", "Function contracts on the real transfer-default functions of maintransformer.py; every obligation is "
-        "discharged by z3 for all field valuations.",
-        "Trusted: givc VC generator, class schema, Transformer lookups as uninterpreted functions. "
-        "Only the transfer-default functions are under contract so far.", "DESIGN.md section 4 C02"),
+    chk("C02", "Function contracts on the real transfer-default functions of maintransformer.py (documented defaults for all type / "
+        "direction combinations), on _pass3_callable_throws (a trailing GError** is removed and the callable marked as throwing, "
+        "nothing else changes) and on _pass3_callable_callbacks: destroy name, scope, transfer and closure name of every "
+        "parameter equal left folds over the parameter list (a destroy notify marks the most recent plain callback before it "
+        "notified / transfer none / destroy = its name, an untyped `...data` pointer becomes its closure, well-known callback "
+        "types get async scope) and a parameter named as a closure becomes nullable unless (not nullable).",
+        "Trusted: givc VC generator, class schema, Transformer lookups (lookup_typenode, resolve_aliases) as uninterpreted "
+        "functions, parameters pairwise distinct objects (precondition, instantiated at every pair of read positions). The C type "
+        "table / canonicalisation (create_type_from_ctype_string, _canonicalize_ctype) and _create_callback are not under contract.",
+        "DESIGN.md section 4 C02"),
 ]
 
 NA_ALL = {
